@@ -7,7 +7,7 @@ namespace Nervus.BackupLTS
 /-- file-level invariant of the source database, by writer program point -/
 def SrcInv (s : State) : Prop :=
   s.wal.ckpt ≤ s.wal.txs ∧ s.pf.store ≤ s.wal.txs ∧ s.wal.ckpt ≤ s.pf.store ∧
-  (s.wal.msegs = 0 → s.wal.ckpt = 0) ∧ s.wal.ckpt ≤ s.pf.nodes ∧
+  (s.wal.msegs = 0 → s.wal.ckpt = 0) ∧ s.wal.ckpt ≤ s.pf.nodes ∧ s.wal.first ≤ s.wal.ckpt ∧
   s.pf.index = (if s.hasIndex then s.wal.txs else 0) ∧
   (match s.mode with
    | .idle => s.pf.nodes = s.wal.txs ∧ s.pf.segs = s.wal.msegs ∧ s.pf.store = s.wal.ckpt
@@ -41,9 +41,9 @@ theorem inv_init (h0 : Bool) : Inv h0 (init h0) :=
 
 theorem good_of (hasIndex : Bool) (pf0 : PF) (w : Wal)
     (h1 : w.msegs ≤ pf0.segs) (h2 : w.ckpt ≤ pf0.nodes) (h3 : w.msegs = 0 ∨ w.ckpt ≤ pf0.store)
-    (h4 : w.msegs = 0 → w.ckpt = 0) (h5 : pf0.nodes ≤ w.txs) (h6 : pf0.store ≤ w.txs) (_h7 : w.ckpt ≤ w.txs)
+    (h4 : w.msegs = 0 → w.ckpt = 0) (h5 : pf0.nodes ≤ w.txs) (h6 : pf0.store ≤ w.txs) (_h7 : w.ckpt ≤ w.txs) (h9 : w.first ≤ w.ckpt)
     (h8 : pf0.index = if hasIndex then w.txs else 0) : Good hasIndex pf0 w w.txs := by
-  refine ⟨_, by simp only [recover]; rw [if_neg (by omega), if_neg (by omega)], ?_⟩
+  refine ⟨_, by simp only [recover]; rw [if_neg (by omega), if_neg (by omega), if_neg (by omega)], ?_⟩
   refine ⟨by simp; omega, rfl, ?_, h8⟩
   intro k
   simp only [Content.hasProp]
@@ -56,14 +56,14 @@ theorem good_of (hasIndex : Bool) (pf0 : PF) (w : Wal)
 
 theorem inv_step {h0 : Bool} {s s' : State} {l : Label} (hi : Inv h0 s) (hs : step s l = some s') : Inv h0 s' := by
   obtain ⟨hh, hsrc, hbk⟩ := hi
-  obtain ⟨pf, wal, mode, hasIndex, bk, sC, sK, sA⟩ := s
+  obtain ⟨pf, wal, mode, hasIndex, closed, bk, sC, sK, sA⟩ := s
   obtain ⟨nodes, segs, store, index⟩ := pf
-  obtain ⟨txs, ckpt, msegs⟩ := wal
+  obtain ⟨txs, ckpt, msegs, first⟩ := wal
   simp only at hh
   cases l <;> simp only [step] at hs
   case cW =>
     split at hs
-    · rename_i hm; subst hm
+    · rename_i hm; obtain ⟨hm, hcl⟩ := hm; subst hm
       cases hs
       refine ⟨hh, ?_, ?_⟩
       · simp only [SrcInv, noteCommit] at hsrc ⊢
@@ -81,7 +81,7 @@ theorem inv_step {h0 : Bool} {s s' : State} {l : Label} (hi : Inv h0 s) (hs : st
     · cases hs
   case kP =>
     split at hs
-    · rename_i hm; obtain ⟨hm, hlt⟩ := hm; subst hm
+    · rename_i hm; obtain ⟨hm, hcl, hlt⟩ := hm; subst hm
       cases hs
       refine ⟨hh, ?_, ?_⟩
       · simp only [SrcInv, noteCompact] at hsrc ⊢
@@ -105,6 +105,20 @@ theorem inv_step {h0 : Bool} {s s' : State} {l : Label} (hi : Inv h0 s) (hs : st
       · simp only [SrcInv, noteCompact] at hsrc ⊢
         simp_all <;> omega
       · cases bk <;> simp_all [BkInv, noteCompact, between, inBackup]
+    · cases hs
+  case close =>
+    split at hs
+    · rename_i hm; obtain ⟨hm, hcl⟩ := hm; subst hm
+      cases hs
+      refine ⟨hh, ?_, ?_⟩
+      · simp only [SrcInv, noteClose, closeWal] at hsrc ⊢
+        split <;> simp_all <;> omega
+      · cases bk <;> simp_all [BkInv, noteClose, closeWal, inBackup]
+    · cases hs
+  case reopen =>
+    split at hs
+    · cases hs
+      exact ⟨hh, by simpa [SrcInv] using hsrc, by cases bk <;> simp_all [BkInv]⟩
     · cases hs
   case bStart =>
     split at hs
@@ -131,7 +145,7 @@ theorem inv_step {h0 : Bool} {s s' : State} {l : Label} (hi : Inv h0 s) (hs : st
       refine ⟨b1, b2, ?_⟩
       intro hk hc
       obtain ⟨k1, k2, k3⟩ := b5 hk
-      apply good_of hasIndex pf0 ⟨txs, ckpt, msegs⟩ k1 k2 k3 hsrc.2.2.2.1 b3 b4 hsrc.1
+      apply good_of hasIndex pf0 ⟨txs, ckpt, msegs, first⟩ k1 k2 k3 hsrc.2.2.2.1 b3 b4 hsrc.1 hsrc.2.2.2.2.2.1
       cases hasIndex
       · simpa using b7 rfl
       · simpa using b6 rfl (hc rfl)
